@@ -7,11 +7,14 @@ package c10
 // not yet scheduled on a loaded machine".
 
 import (
+	"context"
 	"regexp"
 	"runtime"
 	"sort"
 	"strconv"
 	"strings"
+	"sync/atomic"
+	"time"
 
 	"verifharness/kit"
 )
@@ -88,6 +91,142 @@ func frames(stack string, n int) string {
 		keep = append(keep, ln)
 	}
 	return genericRe.ReplaceAllString(kit.TopFrames(strings.Join(keep, "\n"), n), "")
+}
+
+const (
+	genSendMark  = "c10.(*run).genSend"
+	buildSrcMark = "go-zero/core/mr.buildSource"
+)
+
+// innermostFrame returns the innermost non-runtime function of a labelled stack.
+func innermostFrame(g kit.Goroutine) string {
+	for _, ln := range strings.Split(g.Stack, "\n") {
+		if ln == "" || strings.HasPrefix(ln, "{") || strings.HasPrefix(ln, "labels:") ||
+			strings.HasPrefix(ln, "runtime.") || strings.HasPrefix(ln, "sync.") || strings.HasPrefix(ln, "runtime/") {
+			continue
+		}
+		return ln
+	}
+	return ""
+}
+
+// generatorInSend: the goroutine started by mr.buildSource is inside the harness
+// generator, and the generator is in its send on the source channel (genSend's
+// select is the innermost non-runtime frame).
+func generatorInSend(g kit.Goroutine) bool {
+	return hasUserFrame(g) && strings.Contains(g.Stack, buildSrcMark) && strings.Contains(innermostFrame(g), genSendMark)
+}
+
+// onlyGeneratorsInSend: at least one generator of the call sits in its send, and
+// no OTHER user function of the call is still running (every other goroutine of
+// the call, if any, is inside core/mr only).
+func onlyGeneratorsInSend(gs []kit.Goroutine) bool {
+	n := 0
+	for _, g := range gs {
+		switch {
+		case generatorInSend(g):
+			n++
+		case hasUserFrame(g):
+			return false
+		}
+	}
+	return n > 0
+}
+
+// progress condenses everything the user functions of this run have done so far
+// into one number (atomic loads only: the census does not synchronise the user
+// functions with each other).
+func (r *run) progress() uint64 {
+	var n uint64
+	for i := range r.mapped {
+		n += uint64(atomic.LoadInt32(&r.mapped[i]))
+	}
+	for i := range r.written {
+		n += uint64(atomic.LoadInt32(&r.written[i])) + uint64(atomic.LoadInt32(&r.reduced[i]))
+	}
+	r.evmu.Lock()
+	n += uint64(len(r.cancels) + len(r.panics) + len(r.writes))
+	for _, c := range r.cancels {
+		if c.Ret != 0 {
+			n++
+		}
+	}
+	for _, w := range r.writes {
+		if w.Ret != 0 {
+			n++
+		}
+	}
+	r.evmu.Unlock()
+	n += uint64(r.genSent.Load()) + uint64(r.faultHit.Load()) + uint64(r.ctxHit.Load())
+	if r.redRet.Load() != 0 {
+		n++
+	}
+	if r.genReturned.Load() {
+		n++
+	}
+	return n
+}
+
+type abandonVerdict int
+
+const (
+	abandonGone      abandonVerdict = iota // the state dissolved: the generator moved on, or another user function is running
+	abandonConfirmed                       // identical in abandonDumps further dumps, everything parked, no progress
+	abandonUndecided                       // the pattern persisted but the state never stood still
+)
+
+const (
+	abandonDumps    = 3                      // further identical dumps after the stable census
+	abandonEvery    = 100 * time.Millisecond // generous; only spaces the dumps, never decides
+	abandonMaxDumps = 40
+)
+
+var abandonReported = map[string]int{} // violation key -> reports by this process
+
+// confirmAbandoned decides, by state only, whether the generator(s) of the call
+// are stuck in their send for good: the call has returned, every hold of the
+// harness has been released, no other user function of the call is running, and
+// in abandonDumps further dumps the labelled stacks are identical, every core/mr
+// goroutine is PARKED in a channel/select/semaphore wait (nobody is merely
+// waiting for a CPU), and no user function made any progress in between. Every
+// goroutine that could receive from the source channel belongs to the call (it
+// carries the label): if none of them is runnable and none is inside user code,
+// nothing can ever wake the generator.
+func (r *run) confirmAbandoned(first []kit.Goroutine, every time.Duration) (abandonVerdict, []kit.Goroutine, int) {
+	fp, prog, same := fingerprintOf(first), r.progress(), 0
+	for i := 1; i <= abandonMaxDumps; i++ {
+		time.Sleep(every)
+		gs := kit.LabelledGoroutines(r.id)
+		if !onlyGeneratorsInSend(gs) {
+			return abandonGone, gs, i
+		}
+		parked, _ := allParked(mrGoroutines())
+		f, p := fingerprintOf(gs), r.progress()
+		if f == fp && p == prog && parked {
+			same++
+			if same >= abandonDumps {
+				return abandonConfirmed, gs, i
+			}
+			continue
+		}
+		fp, prog, same = f, p, 0
+	}
+	return abandonUndecided, nil, abandonMaxDumps
+}
+
+// abandonClass: what had happened in the run whose generator was abandoned.
+func (r *run) abandonClass() string {
+	switch {
+	case r.ctxDoneAtCall.Load():
+		return "ctx-ended-before-call"
+	case r.ctxEndInv.Load() != 0 || (r.ctx != nil && r.ctx.Err() == context.DeadlineExceeded):
+		return "ctx-ended-during-call"
+	case len(r.cancelsCopy()) > 0:
+		return "after-cancel"
+	case len(r.panicsCopy()) > 0:
+		return "after-user-panic"
+	}
+	return "no-fault"
 }
 
 var knownLeaked = map[int]bool{} // goroutine ids already reported as leaked by earlier runs of this process
